@@ -103,8 +103,12 @@ func GenAction(t *rapid.T, bias GenBias) Action {
 			}
 		case 9, 10:
 			a.Kind = "policy"
-			a.S = rapid.SampledFrom([]string{"setFeePerByte", "setExecFeeFactor", "setStoragePrice", "setAttributeFee", "setMillisecondsPerBlock", "setMaxValidUntilBlockIncrement", "setMaxTraceableBlocks"}).Draw(t, "pm")
+			a.S = rapid.SampledFrom([]string{"setFeePerByte", "setExecFeeFactor", "setStoragePrice", "setAttributeFee", "setMillisecondsPerBlock", "setMaxValidUntilBlockIncrement", "setMaxTraceableBlocks", "setWhitelistFeeContract", "setWhitelistFeeContract", "removeWhitelistFeeContract"}).Draw(t, "pm")
 			switch a.S {
+			case "setWhitelistFeeContract", "removeWhitelistFeeContract": // A = contract, K = method (put | get | notify), N = fixed fee
+				a.A = rapid.IntRange(0, 2).Draw(t, "wl_contract")
+				a.K = vt.Bytes(rapid.SampledFrom([]string{"put", "put", "get", "notify"}).Draw(t, "wl_method"))
+				a.N = rapid.SampledFrom([]int64{0, 1, 1000, 123456, 10000000}).Draw(t, "wl_fee")
 			case "setFeePerByte":
 				a.N = rapid.Int64Range(0, 3000).Draw(t, "v")
 			case "setExecFeeFactor":
@@ -159,6 +163,9 @@ func GenAction(t *rapid.T, bias GenBias) Action {
 			a.N = genAmount(t, "amt", false)
 		}
 		if a.Kind == "gas_transfer" || a.Kind == "neo_transfer" {
+			if rapid.IntRange(0, 7).Draw(t, "selfref") == 0 {
+				a.B = 7 // self-referencing array as data
+			}
 			switch rapid.IntRange(0, 6).Draw(t, "tok") {
 			case 0:
 				a.A = a.From // self transfer
